@@ -6,6 +6,11 @@ const (
 	min = time.Minute
 )
 
+func har(name, pkg, run string, needLlgo bool, quick, thorough, qShards, tShards int) Job {
+	return Job{Name: name, Kind: "harness", Pkg: pkg, Run: run, NeedLlgo: needLlgo, Prepare: "^TestPrepare$",
+		Checks: [2]int{quick, thorough}, Shards: [2]int{qShards, tShards}, Timeout: [2]time.Duration{15 * min, 60 * min}}
+}
+
 func inj(name, pkg, file, tags, run string, quick, thorough, qShards, tShards int) Job {
 	return Job{Name: name, Kind: "inject", Pkg: pkg, Files: []string{file}, Tags: tags, Run: run,
 		Checks: [2]int{quick, thorough}, Shards: [2]int{qShards, tShards}, Timeout: [2]time.Duration{10 * min, 40 * min}}
@@ -81,6 +86,21 @@ var props = map[string]Prop{
 		},
 		Jobs: []Job{
 			inj("typename", "ssa/abi", "zz_verif_c07_test.go", "", "TestVerifC07TypeNameIdentity", 5000, 150000, 4, 16),
+		},
+	},
+	"C02": {
+		ID: "C02", Level: "exploration",
+		Rule: "programs/evalnum: one non-inlined function per (operator, type), per ordered conversion pair, per (operand type, count type) shift pair and per constant-operand variant (4086 functions). (1) rapid draws (function, operand bit patterns) with boundary-biased values (0, +-1, +-2, min, max, 2^k, 2^k+-1, width extremes, shift counts around every width and type extreme, float specials / rounding halfway cases / integer-range edges) - non-trivial = at least one operand from a boundary class; distinct by (function, operands). (2) every function whose run-time operands are 8-bit (and 16-bit unary/conversion functions) is enumerated completely (all 65,536 pairs; shifts: all 256 operands x ~170 counts) and compared by checksum, then point by point on mismatch. Each case is evaluated natively (gc) and by the llgo-compiled program at every listed configuration.",
+		Assumptions: []string{
+			"reference = the same Go functions compiled by gc (go1.24, amd64) and called in-process",
+			"float->integer conversions of NaN/out-of-range values are excluded (implementation-defined); NaN results compare equal to any NaN",
+			"LLVM 14.0.6 with -opaque-pointers compiles llgo's IR faithfully; configurations that make libLLVM-14 crash are skipped and counted",
+			"32/64-bit operand spaces are sampled at boundaries, not enumerated",
+			"complex64 multiplication and division are compared with a tolerance of 8 float32 ulps of the larger component (the spec leaves their intermediate precision open: gc widens to float64, single-precision evaluation is valid too); every other operator is compared bit for bit",
+		},
+		Jobs: []Job{
+			har("exhaustive8", "./harness/c02", "TestC02Exhaustive8", true, 0, 0, 4, 16),
+			har("random", "./harness/c02", "TestC02Random", true, 40000, 1500000, 8, 16),
 		},
 	},
 }
